@@ -297,10 +297,19 @@ func (d *Dialer) connect(ctx context.Context, network, address string, connCfg C
 			Host: host,
 			Port: port,
 		}
+		// The exchange is a series of blocking writes and reads on the new
+		// connection, which ctx (it carries Timeout and Deadline) does not
+		// interrupt: its deadline is applied to the connection while the
+		// exchange lasts. Otherwise a broker that accepts the connection and
+		// then stops answering keeps the dial blocked forever.
+		if deadline, ok := ctx.Deadline(); ok {
+			conn.SetDeadline(deadline)
+		}
 		if err := d.authenticateSASL(sasl.WithMetadata(ctx, metadata), conn); err != nil {
 			_ = conn.Close()
 			return nil, fmt.Errorf("could not successfully authenticate to %s:%d with SASL: %w", host, port, err)
 		}
+		conn.SetDeadline(time.Time{})
 	}
 
 	return conn, nil
